@@ -1,6 +1,7 @@
 (* Reflection instances for C19 over the tables regenerated from the source on this run. *)
 From Coq Require Import QArith List Bool.
-From MV Require Import Geometry.Radii Generated.RadiiGen Reflect.RadiiReflect.
+From MV Require Import Geometry.Radii Reflect.RadiiReflect.
+From MVD Require Import Generated.RadiiGen.
 Lemma presets_check_ok : presets_check preset_table ref_covalent ref_vdw = true.
 Proof. vm_compute. reflexivity. Qed.
 Lemma covalent_check_ok : covalent_check preset_table ref_covalent = true.
